@@ -119,6 +119,7 @@ type haRun struct {
 	syncMaxPer   period
 	tailDone     bool
 	tailCommitAt map[int]time.Duration
+	lagSince     map[int]time.Duration
 	steps        int
 	flips        int
 	flipPos      map[string]bool
@@ -186,7 +187,7 @@ func haExec(c *kit.Ctx, cs *haCase) (res haResult) {
 	mon.ref = haNewLedger(cl, -1)
 	cl.nonce = cs.NonceFactory
 	run := &haRun{cl: cl, cs: cs, r: r, group: make([]int, cs.Nodes), frozen: make([]bool, cs.Nodes), thawAt: make([]time.Duration, cs.Nodes),
-		lateNodes: map[int]bool{}, certSeen: map[basics.Round]bool{}, tailCommitAt: map[int]time.Duration{}, flipPos: map[string]bool{}}
+		lateNodes: map[int]bool{}, certSeen: map[basics.Round]bool{}, tailCommitAt: map[int]time.Duration{}, lagSince: map[int]time.Duration{}, flipPos: map[string]bool{}}
 	if len(as) > 0 || cs.Adv == "replay" || cs.Adv == "malformed" || cs.Adv == "mix" {
 		run.adv = haNewAdv(run)
 	}
@@ -786,7 +787,30 @@ func (run *haRun) tailTick() {
 			cl.catchup(i, nr+1)
 		}
 	}
+	// a node that was left behind (the others reached their quorum without it and moved on; votes of a period
+	// more than one ahead of its own are not fresh for it) is served by the catch-up service after a delay
+	mx := run.maxNext()
+	for i, n := range cl.nodes {
+		if n.ledger.NextRound() >= mx {
+			delete(run.lagSince, i)
+			continue
+		}
+		since, ok := run.lagSince[i]
+		if !ok {
+			run.lagSince[i] = cl.Now()
+			continue
+		}
+		if cl.Now()-since >= haCatchupDelay {
+			cl.mon.c.Count("tail_catchups_of_lagging_nodes", 1)
+			cl.catchup(i, mx)
+			delete(run.lagSince, i)
+		}
+	}
 }
+
+// haCatchupDelay is how long (virtual) a node may lag behind the others' ledgers before the simulated
+// catch-up service delivers the missing blocks to it.
+const haCatchupDelay = 10 * time.Second
 
 // deliverBatch delivers, for every destination, at most one due message (the earliest); nodes process in parallel.
 func (run *haRun) deliverBatch() int {
